@@ -103,6 +103,27 @@ MUTANTS = [
      "            if self._file is None:\n                self._file = open(\"/dev/null\", \"wb\")\n            return subprocess.PIPE\n", ["C10"]),
     ("revert-D34-valueerror-at-launch", "execution/ops/run_task_executable.py",
      "        except (OSError, ValueError) as ex:\n", "        except OSError as ex:\n", ["C03", "C09"]),
+    ("revert-D35-abort-raised-anywhere", "errors/signal.py",
+     "    if _defer_depth > 0:\n        _abort_pending = True\n        return\n    raise ConductorAbort()\n", "    raise ConductorAbort()\n", ["C16"]),
+    ("abort-noted-but-never-raised", "errors/signal.py",
+     "        if _defer_depth == 0 and _abort_pending:\n", "        if _defer_depth == 0 and _abort_pending and False:\n", ["C16"]),
+    ("register-outside-the-deferred-block", "execution/executor.py",
+     "                        handle.slot = slot\n                        self._inflight_ops.add_op(handle, next_op)\n                        if slot is not None:\n                            self._available_slots.pop()\n",
+     "                        handle.slot = slot\n                    self._inflight_ops.add_op(handle, next_op)\n                    if slot is not None:\n                        self._available_slots.pop()\n", ["C16"]),
+    ("revert-D36-logs-left-open-after-failed-launch", "execution/ops/run_task_executable.py",
+     "                if output is not None:\n                    output.finish()\n", "                if output is not None:\n                    pass\n", ["C03"]),
+    ("revert-D36-pipes-left-open-after-nonzero-exit", "execution/ops/run_task_executable.py",
+     "                if pipe is not None:\n                    pipe.close()\n            handle.process = None\n", "                if pipe is not None:\n                    pass\n", ["C03"]),
+    ("revert-D37-gc-chmods-the-containing-directory", "cli/gc.py",
+     "            if failed_path != root:\n                make_accessible(os.path.dirname(failed_path))\n", "            os.chmod(os.path.dirname(failed_path), stat.S_IRWXU)\n", ["C13"]),
+    ("revert-D37-gc-dies-at-an-unremovable-output", "cli/gc.py",
+     "        except OSError as ex:\n            failures.append(\"{}: {}\".format(failed_path, ex))\n", "        except NotADirectoryError as ex:\n            failures.append(\"{}: {}\".format(failed_path, ex))\n", ["C13"]),
+    ("revert-D38-version-recorded-without-a-directory", "execution/ops/run_task_executable.py",
+     "            if not self._output_path.is_dir():\n", "            if False:\n", ["C06"]),
+    ("revert-D39-no-stream-kills-the-copier", "utils/tee.py",
+     "        stream_ok = stream is not None and hasattr(stream, \"buffer\")\n", "        stream_ok = True\n", ["C10"]),
+    ("revert-D40-only-mkdir-guarded-in-combine", "execution/ops/combine_outputs.py",
+     "                copy_into.symlink_to(relative_to_target)\n\n        except OSError as ex:", "                copy_into.symlink_to(relative_to_target)\n\n        except NotADirectoryError as ex:", ["C03", "C09"]),
     ("loader-no-dup-check", "parsing/task_index.py",
      "                    if dep_identifier in task_deps_set:\n", "                    if dep_identifier in task_deps_set and len(task_deps) > 2:\n", ["C14"]),
 ]
